@@ -48,10 +48,10 @@ func (c10) Cases(tier string) int {
 }
 
 type sumTree struct {
-	Base   string
-	L      model.Layout
-	Items  map[string][]string // item dir (path syntax) -> file names (sorted)
-	Now    int64
+	Base  string
+	L     model.Layout
+	Items map[string][]string // item dir (path syntax) -> file names (sorted)
+	Now   int64
 }
 
 // buildSumTree creates the tree; contents are fixed at clock now.
